@@ -100,6 +100,17 @@ def _json_default(o):
     raise TypeError(f"case not JSON-serialisable: {type(o)}")
 
 
+def abbreviate(obj, limit=240):
+    """copy of a case with very long strings shortened (evidence samples only; replay files keep the full case)"""
+    if isinstance(obj, str):
+        return obj if len(obj) <= limit else obj[:limit] + "...(+%d chars)" % (len(obj) - limit)
+    if isinstance(obj, list):
+        return [abbreviate(x, limit) for x in obj]
+    if isinstance(obj, dict):
+        return {k: abbreviate(v, limit) for k, v in obj.items()}
+    return obj
+
+
 def case_hash(case):
     return hashlib.blake2b(canon(case).encode(), digest_size=8).digest()
 
@@ -215,7 +226,13 @@ class Acc:
 # worker side
 
 def _worker_init():
+    import faulthandler
     import warnings
+    try:
+        # diagnosis only: if a worker is still busy after the supervisor limit its stack goes to stderr (the parent reports exit 2)
+        faulthandler.dump_traceback_later(float(os.environ.get("VERIF_WATCHDOG_S", "1500")), exit=False, file=sys.__stderr__)
+    except Exception:  # noqa: BLE001
+        pass
     warnings.filterwarnings("ignore", message="Generating overly large repr")
     quiet_stdout()
     try:
@@ -408,7 +425,13 @@ def run(prop_id, tier):
             if res[0] == "err":
                 raise HarnessError("replay corpus: " + res[1])
             total.merge(res[1])
-        results = pool.map(_shard_entry, tasks, chunksize=1)
+        # wall-clock supervisor for the harness itself: a run that does not finish is inconclusive (exit 2), never a violation
+        limit = float(os.environ.get("VERIF_WATCHDOG_S", "1500" if tier == "quick" else "14400"))
+        try:
+            results = pool.map_async(_shard_entry, tasks, chunksize=1).get(timeout=limit)
+        except multiprocessing.TimeoutError:
+            pool.terminate()
+            raise HarnessError("supervisor: the run did not finish within %.0f s (inconclusive)" % limit)
         for tag, payload in results:
             if tag == "err":
                 raise HarnessError(payload)
@@ -479,7 +502,7 @@ def run(prop_id, tier):
             "evaluations": total.evaluations,
             "distinct_nontrivial": len(total.nontrivial),
             "rule": mod.RULE,
-            "samples": [json.loads(canon(s)) for s in total.samples[:Acc.MAX_SAMPLES]],
+            "samples": [abbreviate(json.loads(canon(s))) for s in total.samples[:Acc.MAX_SAMPLES]],
             "by_source": dict(total.sources),
             "labels": dict(sorted(total.labels.items())),
             "skipped_ops": total.skipped,
